@@ -1329,6 +1329,10 @@ static int state_sync_process(struct snapraid_state* state, struct snapraid_pari
 
 			msg_progress("Autosaving...\n");
 
+			/* wait for the writer threads to complete the parity writes */
+			/* of the blocks we are going to save as synced */
+			io_flush(&io);
+
 			/* before writing the new content file we ensure that */
 			/* the parity is really written flushing the disk cache */
 			for (l = 0; l < state->level; ++l) {
